@@ -107,6 +107,7 @@ def pipelines(tmp, rng, count):
              ("lambda", ["batch3", "cache"]), ("neighbors", ["materialize"]), ("kernel", ["reservoir", "chunk"]), ("bandit", ["cycle5", "cache"]), ("linear", ["logged", "shuffle7", "chunk"]),
              ("lambda-sparse", ["dense-l"]), ("lambda-sparse", ["dense-l", "take30"]), ("lambda-sparse", ["shuffle7", "dense-h"]), ("lambda-sparse", ["scale0", "cache"]),
              ("lambda", ["logged0"]), ("lambda", ["logged0", "shuffle0", "cache"]), ("linear", ["noise0", "riffle0"]), ("linear", ["reservoir0", "chunk"]), ("linear-2", ["grounded0"]),
+             ("lambda", ["grounded", "cache", "cycle5"]), ("lambda", ["grounded", "materialize", "cycle5"]),     # > 128 feedback evaluations per read on stored feedback objects
              ("sup-arff2", ["repr", "materialize"]), ("sup-2cls", ["repr", "cache"]), ("linear-2", ["grounded", "materialize"]), ("linear-2", ["repr", "shuffle7", "materialize"])]
     chains = list(fixed)
     while len(chains) < count:
@@ -154,7 +155,7 @@ def run(ctx):
             ref_env = factory(); ref = [canon(i) for i in ref_env.read()]; ref_params = canon(dict(ref_env.params))
             again = [canon(i) for i in factory().read()]
         except Exception as e:
-            if pipes.index((desc, factory)) < 29:     # the curated pipelines are type-compatible by construction
+            if pipes.index((desc, factory)) < 31:     # the curated pipelines are type-compatible by construction
                 ctx.violation("curated:first-read-raises", "a fresh %s cannot be read even once: %s: %s" % (desc, type(e).__name__, str(e)[:150]), dict(pipeline=desc))
             skipped += 1; continue            # not a type-compatible chain: a fresh object cannot even be read once
         if again != ref:
@@ -162,7 +163,7 @@ def run(ctx):
             # pipelines must read alike
             ctx.violation("fresh-reads-differ", "two freshly built identical pipelines yield different sequences%s  pipeline=%s" % (_first(again, ref), desc), dict(pipeline=desc))
             skipped += 1; continue
-        nh = per if pipes.index((desc, factory)) >= 29 else min(len(hists), 4 * per)      # the curated pipelines get four times as many histories
+        nh = per if pipes.index((desc, factory)) >= 31 else min(len(hists), 4 * per)      # the curated pipelines get four times as many histories
         for h in (hists if nh >= len(hists) else rng.sample(hists, nh)):
             ctx.case(json.dumps([desc, h]))
             bad = replay(factory, h, ref, ref_params)
@@ -206,7 +207,7 @@ def run(ctx):
     ctx.extra["shared_prefix_cases"] = nshared
     # save()/from_save(): the saved form read repeatedly
     from coba.environments import Environments
-    for desc, factory in pipes[:ctx.pick(6, 30)] + [p for p in pipes[20:29]]:
+    for desc, factory in pipes[:ctx.pick(6, 30)] + [p for p in pipes[20:31]]:
         try:
             ref = [canon(i) for i in factory().read()]
             f = os.path.join(tmp, "sv.zip")
